@@ -58,7 +58,8 @@ def readSign : List Char → Bool × List Char
   | cs => (false, cs)
 
 /-- largest magnitude that still rounds to a finite float64: below 2^1024 - 2^970 -/
-def overflowBound : Nat := 2 ^ 1024 - 2 ^ 970
+def overflowBound : Nat :=
+  179769313486231580793728971405303415079934132710037826936173778980444968292764750946649017977587207096330286416692887910946555547851940402630657488671505820681908902000708383676273854845817711531764475730270069855571366959622842914819860834936475292719074168444365510704342711559699508093042880177904174497792
 
 /-- the value `num / den` of a token, `none` if `parseNum` returns an error -/
 def parseNumSpec (s : List Char) : Option (Int × Nat) :=
